@@ -6,6 +6,7 @@ Monitor (implementation only): every attempt on a configuration reachable from a
 rejected and identifiers of sealed configurations never change.  Correspondence: same histories on
 the Lean model (Model/IdentImpl.lean `step`)."""
 import copy
+import json
 import random
 
 from .. import common, identlib
@@ -182,6 +183,7 @@ def correspond(ctx):
                 break
     submitted_tasks_part(ctx, ctx.scale(12, 120))
     presubmit_histories_part(ctx)
+    derived_histories_part(ctx, random.Random(f"c14x-{ctx.seed}"), ctx.scale(3, 10), ctx.scale(40, 200), ctx.scale(16, 80))
 
 
 def presubmit_histories_part(ctx, witness=None):
@@ -233,6 +235,176 @@ def submitted_tasks_part(ctx, n):
                                  f"a rejected assignment on a submitted {pk['cls']} task moved its identifier / job directory: "
                                  f"{pk['before'][0][:16]}… {pk['before'][1][-40:]} -> {pk['after'][0][:16]}… {pk['after'][1][-40:]}", {"submitted_tasks_case": case})
                 break
+
+
+# ---------------------------------------------------------------------------------------------------------------------
+# Work that goes on AFTER the submission, on other configurations obtained from the frozen ones through the public API:
+# copies (`copyconfig`, `.copy()`), pre-task transfers (`add_pretasks_from`), next tasks of a chain whose `task_outputs`
+# use the documented idiom `copyconfig(self.model).add_pretasks(dep(Loader(value=model)))`.  Mutating such a derived
+# configuration is legal; the sentence of the property that is checked is "every configuration reachable from a submitted
+# task / sealed configuration stays what it was at submission" on public observables (values, meta flag, pre-tasks, init
+# tasks, producing task, identifiers, serialized form), whatever the derived configurations go through.
+
+DERIVE_VIAS = ["copyconfig", "copyconfig", "copyconfig-kw", "copy", "pretasks_from"]
+
+
+def _scalar_args(lib, cname):
+    return [a for a in cfggen.all_args(lib, cname) if a["decl"] in ("param", "meta", "option") and not cfggen.has_cfg(a["ty"])]
+
+
+def make_derived_case(rng, li, lib, env):
+    if env == "dryrun":
+        # a task-rooted acyclic graph really submitted (dry run)
+        for _ in range(60):
+            g = cfggen.gen_graph(rng, lib, max_nodes=rng.choice([3, 6, 9]), cycles=False)
+            cls = next(c for c in lib["classes"] if c["name"] == g["nodes"][0]["cls"])
+            if cls["kind"] == "task" and not any(nd["task"] is not None for nd in g["nodes"]):
+                break
+        else:
+            return None
+        k = 0
+    else:
+        g = cfggen.gen_graph(rng, lib, max_nodes=rng.choice([3, 6, 10]))
+        k = rng.randrange(len(g["nodes"]))
+    # configurations that come with their own pre-tasks (a model with the task that loads its parameters)
+    if rng.random() < 0.75:
+        hosts = [i for i in sorted(reach(g, k)) if not g["nodes"][i]["cls"].startswith("LW")]
+        for j in rng.sample(hosts, min(len(hosts), rng.choice([1, 1, 2]))):
+            for _ in range(rng.choice([1, 1, 2])):
+                g["nodes"].append({"cls": "LW", "values": [["v", rng.choice([1, 2, 3])]], "meta": None, "pre": [], "init": [], "task": None})
+                g["nodes"][j]["pre"].append(len(g["nodes"]) - 1)
+    n = len(g["nodes"])
+    frozen = sorted(reach(g, k))
+    ops = [{"op": "submit" if env == "dryrun" else "seal", "n": k, "frozen": frozen}]
+    derived = []  # (name, src, via)
+    lws = [i for i, x in enumerate(g["nodes"]) if x["cls"] == "LW"]
+
+    def dmut(name, src, via):
+        r = rng.random()
+        args = _scalar_args(lib, g["nodes"][src]["cls"]) if via != "pretasks_from" else []
+        if r < 0.55 or (r < 0.85 and not args):
+            return {"op": "dmut", "on": name, "mut": "addpre", "p": rng.choice(lws) if lws and rng.random() < 0.4 else None, "via": rng.choice(["direct", "direct", "from"])}
+        if r < 0.85:
+            a = rng.choice(args)
+            return {"op": "dmut", "on": name, "mut": "set", "pyname": a["name"], "spec": cfggen.GraphGen(rng, lib, 0, False).gen_val(a["ty"], 3, src)}
+        return {"op": "dmut", "on": name, "mut": "setmeta", "b": rng.choice([True, False])}
+
+    for _ in range(rng.choice([3, 5, 8])):
+        r = rng.random()
+        if r < 0.5 or not derived:
+            with_pre = [i for i in frozen if g["nodes"][i]["pre"]]
+            src = rng.choice(with_pre) if with_pre and rng.random() < 0.6 else rng.choice(frozen)
+            via = rng.choice(DERIVE_VIAS)
+            op = {"op": "derive", "src": src, "via": via, "as": f"d{len(derived)}"}
+            if via == "copyconfig-kw":
+                args = _scalar_args(lib, g["nodes"][src]["cls"])
+                if args:
+                    a = rng.choice(args)
+                    op.update(pyname=a["name"], spec=cfggen.GraphGen(rng, lib, 0, False).gen_val(a["ty"], 3, src))
+                else:
+                    op["via"] = via = "copyconfig"
+            ops.append(op)
+            derived.append((op["as"], src, via))
+            for _ in range(rng.choice([1, 2, 3])):
+                ops.append(dmut(*derived[-1]))
+        elif r < 0.7:
+            ops.append(dmut(*rng.choice(derived)))
+        elif r < 0.85:
+            ops.append({"op": rng.choice(["full", "raw"]), "n": rng.choice(frozen)})
+        elif r < 0.95 or env == "dryrun":
+            ops.append({"op": "attempt", "n": rng.choice(frozen), "p": rng.choice(lws) if lws and rng.random() < 0.5 else None})
+        else:
+            j = rng.randrange(n)
+            frozen = sorted(set(frozen) | reach(g, j))
+            ops.append({"op": "seal", "n": j, "frozen": frozen})
+    return {"kind": "derived", "lib": li, "graph": g, "env": env, "ops": ops}
+
+
+SWEEP_IDIOMS = ["copyconfig", "copyconfig", "construct", "from"]
+
+
+def make_sweep_case(rng):
+    stages = [{"idiom": rng.choice(SWEEP_IDIOMS), "epochs": rng.choice([1, 2, 5])} for _ in range(rng.choice([1, 1, 2, 3]))]
+    main = rng.randrange(len(stages))
+    sweep = [{"from": main if rng.random() < 0.8 else rng.randrange(len(stages)), "lr": lr, "idiom": rng.choice(SWEEP_IDIOMS)}
+             for lr in rng.sample([1, 2, 3, 5, 8, 13], rng.choice([2, 2, 3, 4]))]
+    return {"kind": "sweep", "mode": rng.choice(["dry", "dry", "generate"]), "size": rng.choice([1, 3, 7]), "base_pre": rng.choice([0, 0, 1, 2]),
+            "stages": stages, "sweep": sweep, "evals": [rng.randrange(len(stages)) for _ in range(rng.choice([0, 1, 2]))]}
+
+
+def derived_monitor(ctx, case, rec):
+    """implementation only: (1) whatever happens to configurations DERIVED from frozen ones, every frozen configuration is
+    what it was when it was frozen; (2) an add_pretasks attempt on a frozen configuration itself is rejected"""
+    via_of = {o["as"]: o["via"] for o in case.get("ops", []) if o["op"] == "derive"}
+    for si, st in enumerate(rec["steps"]):
+        op = st["op"]
+        if st["changed"]:
+            # report the configuration whose own content changed (those that merely reach it differ by their serialized form only)
+            diff = {x: [f for f in rec["baseline"][x] if rec["baseline"][x][f] != now[f]] for x, now in st["changed"].items()}
+            lb = sorted(diff, key=lambda x: (diff[x] == ["serialized"], x))[0]
+            base, now, fields = rec["baseline"][lb], st["changed"][lb], diff[lb]
+            if op["op"] == "dmut":
+                how = f"{via_of[op['on']]}+{op['mut']}"
+                did = f"{op['mut']} on `{op['on']}`, a configuration obtained by {via_of[op['on']]} from a frozen one, was applied"
+            elif op["op"] == "derive":
+                how = f"derive:{op['via']}"
+                did = f"a configuration was obtained by {op['via']} from frozen node {op['src']}"
+            elif op["op"] == "submit" and "task" in op:
+                how = "next-submission"
+                did = f"another task, {op['task']}, was submitted"
+            else:
+                how = op["op"]
+                did = f"`{op['op']}` ran"
+            ctx.monitor_fail(f"frozen-config-changed:{fields[0]}:{how}",
+                             f"frozen configuration {lb} changed after {did} (step {si}): " +
+                             "; ".join(f"{f} {json.dumps(base[f])[:90]} -> {json.dumps(now[f])[:90]}" for f in fields[:3]),
+                             {"derived_history_case": case, "failing_step": si, "frozen_configuration": lb,
+                              "at_freeze": {f: base[f] for f in fields}, "now": {f: now[f] for f in fields}})
+            return
+        if op["op"] == "attempt" and st["out"] != {"err": "sealed"}:
+            ctx.monitor_fail("mutation-accepted-after-seal:addpre", f"add_pretasks on frozen node {op['n']} accepted (step {si})",
+                             {"derived_history_case": case, "failing_step": si})
+            return
+
+
+def derived_histories_part(ctx, rng, nlibs, n_derived, n_sweep):
+    libs, cases = [], []
+    for li in range(nlibs):
+        libs.append(cfggen.gen_library(rng, f"c14x_{ctx.seed}_{li}"))
+        for i in range(n_derived // nlibs):
+            c = make_derived_case(rng, li, libs[-1], "dryrun" if i % 4 == 3 else "plain")
+            if c is not None:
+                cases.append(c)
+    cases += [make_sweep_case(rng) for _ in range(n_sweep)]
+    recs = identlib.run_cases(ctx, libs, cases, shards=ctx.scale(8, 16), module="xv.impl.c14x_alias_worker")[None]
+    for case, rec in zip(cases, recs):
+        if rec["error"]:
+            ctx.count("derived_case_errors", f"{case['kind']}:{case.get('env', case.get('mode'))}:{rec['error'][:50]}")
+            continue
+        if case["kind"] == "derived":
+            via_of = {o["as"]: (o["via"], o["src"]) for o in case["ops"] if o["op"] == "derive"}
+            applied = 0
+            for st in rec["steps"]:
+                op, out = st["op"], st["out"]
+                res = "ok" if out.get("ok") else "rejected" if out.get("err") == "sealed" else "skipped" if out.get("skipped") else "error"
+                if op["op"] == "derive":
+                    npre = len(case["graph"]["nodes"][op["src"]]["pre"])
+                    ctx.count("derived_from_frozen", f"{case['env']}:{op['via']}:src-pre-tasks={min(npre, 2)}{'+' if npre >= 2 else ''}:{res}")
+                elif op["op"] == "dmut":
+                    ctx.count("mutation_of_derived", f"{via_of[op['on']][0]}:{op['mut']}:{res}")
+                    applied += res == "ok"
+                elif op["op"] == "attempt":
+                    ctx.count("op", "addpre@sealed")
+            ctx.count("frozen_configurations_watched", str(min(len(rec["baseline"]), 8)) + ("+" if len(rec["baseline"]) >= 8 else ""))
+            ctx.case({"derived_history_case": case}, applied > 0)
+        else:
+            shared = len(case["sweep"]) - len({s["from"] for s in case["sweep"]})
+            ctx.count("sweep_history", f"{case['mode']}:stages={len(case['stages'])}:finetunings={len(case['sweep'])}:sharing-a-model={shared > 0}:base-pre-tasks={case['base_pre']}")
+            for s in case["stages"] + case["sweep"]:
+                ctx.count("sweep_task_outputs_idiom", s["idiom"])
+            ctx.case({"derived_history_case": case}, shared > 0)
+        ctx.count("frozen_snapshot_comparisons", case["kind"], len(rec["baseline"]) * len(rec["steps"]))
+        derived_monitor(ctx, case, rec)
 
 
 def run_witness(ctx, finding):
